@@ -20,6 +20,7 @@ type feedOpts struct {
 	sweepMaxLen          int
 	nestQ, nestT         int
 	nestDepths           []int
+	indentQ, indentT     int // pretty-printed depth shapes (indentation wider and narrower than the depth)
 	mutQ, mutT           int
 	nextByte             bool
 	onlyValidBases       bool
@@ -236,7 +237,7 @@ func (e *env) feed(o feedOpts, f inputFn) {
 			var bad []byte
 			gen.Sweep(doc, func(b []byte) bool {
 				if err := call("sweep", b); err != nil {
-					ferr, bad = err, append([]byte(nil), b...)
+					ferr, bad = err, keepSpare(b)
 					return false
 				}
 				return true
@@ -259,6 +260,36 @@ func (e *env) feed(o feedOpts, f inputFn) {
 			r.Label(fmt.Sprintf("nest.depth=%d", spec.Depth))
 			if err := call("nest", doc); err != nil {
 				failRapid(rt, r, caseOf(cfg.Prop, "nest", doc, err), err)
+			}
+		})
+	}
+
+	// 4a. pretty-printed depth shapes, intact or with one indentation byte replaced
+	if n := cfg.N(o.indentQ, o.indentT); o.indentQ > 0 {
+		e.rapidStage("indented", "rapid", n, func(rt *rapid.T) {
+			spec := gen.DrawIndented(rt)
+			doc := spec.Build()
+			r.Label(fmt.Sprintf("indented.cap=%d", spec.IndentCap))
+			if rapid.IntRange(0, 2).Draw(rt, "corrupt?") == 0 {
+				var runs []int // starts of lines
+				for i, c := range doc {
+					if c == '\n' && i+1 < len(doc) && (doc[i+1] == ' ' || doc[i+1] == '\t') {
+						runs = append(runs, i+1)
+					}
+				}
+				if len(runs) > 0 {
+					at := runs[rapid.IntRange(0, len(runs)-1).Draw(rt, "line")]
+					end := at
+					for end < len(doc) && (doc[end] == ' ' || doc[end] == '\t') {
+						end++
+					}
+					at += rapid.IntRange(0, end-at-1).Draw(rt, "col")
+					doc[at] = "x1,]\"\x00\xa0\x0b"[rapid.IntRange(0, 7).Draw(rt, "garbage")]
+					r.Label("indented.corrupted")
+				}
+			}
+			if err := call("indented", doc); err != nil {
+				failRapid(rt, r, caseOf(cfg.Prop, "indented", doc, err), err)
 			}
 		})
 	}
@@ -333,6 +364,17 @@ func caseOf(prop, kind string, in []byte, err error) *core.Case {
 		c.Bufs = []core.HexBytes{append([]byte(nil), in[len(in):len(in)+spare]...)}
 	}
 	return c
+}
+
+// keepSpare copies in together with up to 32 bytes that lie behind it within its capacity, so
+// that a case recorded from the copy (caseOf) still describes the window the library saw.
+func keepSpare(in []byte) []byte {
+	spare := cap(in) - len(in)
+	if spare > 32 {
+		spare = 32
+	}
+	full := append(make([]byte, 0, len(in)+spare), in[:len(in)+spare]...)
+	return full[:len(in)]
 }
 
 // inputOf rebuilds the input slice of a byte-level case, including the bytes that lay behind
